@@ -3,7 +3,7 @@ import copy
 
 from hypothesis import strategies as st
 
-from vlib.core import Violation, Out
+from vlib.core import Violation, Out, HarnessError
 from vlib.runner import HypStage
 from vlib import mw, refs
 from vlib.strategies import txs, script_op
@@ -24,7 +24,8 @@ ASSUMPTIONS = [
 ]
 REQUIRED_LABELS = {t: ["kind:ast", "kind:pair", "kind:malformed", "mal:truncate", "mal:trailing",
                        "mal:empty-script", "mal:truncated-push", "non-minimal-push",
-                       "last-op:opcode", "last-op:push", "inputs>=2"]
+                       "last-op:opcode", "last-op:push", "inputs>=2", "bip144", "link:fresh",
+                       "link:repair-pending", "sighash:legacy", "sighash:segwit"]
                    for t in ("quick", "thorough")}
 
 
@@ -43,7 +44,11 @@ def cases(draw, tier):
                     inp[2][j] = draw(script_op())
         return {"kind": "pair", "tx": tx, "tx2": tx2}
     m = draw(st.sampled_from(["truncate", "trailing", "empty-script", "truncated-push"]))
-    c = {"kind": "malformed", "tx": tx, "mal": m}
+    c = {"kind": "malformed", "tx": tx, "mal": m,
+         # the refusal is the same whatever state the link is in: fresh, or with a repair pending
+         # after a failed exchange of an earlier request
+         "link": draw(st.sampled_from(["fresh", "fresh", "repair-pending"])),
+         "mode": draw(st.sampled_from(["legacy", "segwit"]))}
     raw = refs.tx_bytes(tx)
     if m == "truncate":
         c["at"] = draw(st.one_of(st.integers(0, len(raw) - 1),
@@ -60,12 +65,18 @@ def cases(draw, tier):
     return c
 
 
-def check_unsigned(tx, out):
+def check_unsigned(tx, out, labels=None):
     try:
-        v, ins, outs, lt = refs.parse_tx(out)
+        v, ins, outs, lt, wit = refs.parse_tx_any(out)
     except ValueError as e:
         raise Violation("unsigned-undecodable", "%s: %s" % (out.hex()[:200], e))
-    tv, tins, touts, tlt = tx
+    tv, tins, touts, tlt = tx[:4]
+    if labels is not None and len(tx) > 4:
+        # the statement lists what is kept; witness stacks are not on the list (C01 asserts
+        # that the device gets them): recorded only
+        labels.append("bip144")
+        labels.append("witness-kept" if wit == [[bytes(i) for i in st_] for st_ in tx[4]]
+                      else "witness-not-kept")
     if v != tv:
         raise Violation("version-changed", "%r vs %r" % (v, tv))
     if lt != tlt:
@@ -85,14 +96,28 @@ def check_unsigned(tx, out):
                 i, s.hex()[:160], sorted(a.hex()[:160] for a in allowed)))
 
 
-def through_protocol(raw_hex):
+def unsign(raw_hex):
+    try:
+        return cb.get_unsigned_tx(raw_hex)
+    except BaseException:
+        mw.check_sim(None)       # a gap of the stand-in package is a harness error
+        raise
+
+
+def through_protocol(raw_hex, link="fresh", mode="legacy"):
     w = mw.default_world()
     p = mw.stack(w)
+    if link == "repair-pending":
+        w.faults[w.nex] = "read"
+        r0 = mw.request(p, mw.nominal_requests()["getPubKey"])
+        if r0 != {"errorcode": -905}:
+            raise HarnessError("link failure did not give -905: %r" % (r0,))
     mark = len(w.log)
-    req = copy.deepcopy(mw.nominal_requests()["sign_auth"])
+    req = copy.deepcopy(mw.nominal_requests()["sign_auth" if mode == "legacy"
+                                              else "sign_segwit"])
     req["message"]["tx"] = raw_hex
     rep = mw.request(p, req)
-    return rep, w.apdus(mark)
+    return rep, [e for e in w.log[mark:] if e[0] in ("apdu", "connect", "connect_fail", "close")]
 
 
 def run_case(c):
@@ -108,22 +133,21 @@ def run_case(c):
     for inp in tx[1]:
         labels.append("last-op:" + ("push" if inp[2][-1][0] == "push" else "opcode"))
     if c["kind"] in ("ast", "pair"):
-        out_hex = cb.get_unsigned_tx(raw.hex())
+        out_hex = unsign(raw.hex())
         out = bytes.fromhex(out_hex)
-        check_unsigned(tx, out)
-        again = cb.get_unsigned_tx(out_hex)
+        mw.check_sim(None)
+        check_unsigned(tx, out, labels)
+        again = unsign(out_hex)
         if again != out_hex:
             raise Violation("not-idempotent", "%s -> %s" % (out_hex[:200], again[:200]))
-        if cb.get_unsigned_tx(raw.hex(), hex=False) != out:
-            raise Violation("hex-flag-inconsistent", "")
         if c["kind"] == "pair":
-            out2 = cb.get_unsigned_tx(refs.tx_bytes(c["tx2"]).hex())
+            out2 = unsign(refs.tx_bytes(c["tx2"]).hex())
             if out2 != out_hex:
                 raise Violation("depends-on-non-final-ops", "%s vs %s" % (out_hex[:200],
                                                                          out2[:200]))
         # the transformation is a function of its input only: asking again, after other
         # transactions went through, gives the same answer
-        if cb.get_unsigned_tx(raw.hex()) != out_hex:
+        if unsign(raw.hex()) != out_hex:
             raise Violation("depends-on-call-history", "second call differs from the first")
         return Out(labels, c["kind"] == "pair" or (nonmin and len(tx[1]) >= 2))
     m = c["mal"]
@@ -133,7 +157,7 @@ def run_case(c):
     elif m == "trailing":
         bad = raw + c["extra"]
     else:
-        v, ins, outs, lt = tx
+        v, ins, outs, lt = tx[:4]
         sins = []
         for i, (h, n, ops, q) in enumerate(ins):
             s = b"".join(refs.op_bytes(o) for o in ops)
@@ -148,14 +172,20 @@ def run_case(c):
                             "pd4-nolen": b"\x4e\x05\x00"}[e]
                     s = s + tail
             sins.append((h, n, s, q))
-        bad = refs.ser_tx(v, sins, outs, lt)
+        bad = refs.ser_tx(v, sins, outs, lt) if len(tx) == 4 else \
+            refs.ser_tx_witness(v, sins, outs, lt, tx[4])
     if len(bad) == 0:
         return Out(labels + ["empty-hex"], False)     # empty hex is a validation matter (C02)
-    rep, apdus = through_protocol(bad.hex())
+    link, mode = c.get("link", "fresh"), c.get("mode", "legacy")
+    labels += ["link:" + link, "sighash:" + mode]
+    rep, contact = through_protocol(bad.hex(), link, mode)
+    mw.check_sim(None)
     if rep != {"errorcode": -102}:
-        raise Violation("malformed-not-102:" + m, "tx %s -> %r" % (bad.hex()[:200], rep))
-    if apdus:
-        raise Violation("malformed-reached-device:" + m, "%d APDUs" % len(apdus))
+        raise Violation("malformed-not-102:" + m, "tx %s (link %s) -> %r" % (
+            bad.hex()[:200], link, rep))
+    if contact:
+        raise Violation("malformed-reached-device:" + m, "link %s: %r" % (
+            link, [e[0] for e in contact][:10]))
     return Out(labels, True)
 
 
